@@ -1,7 +1,7 @@
 # C11 — chunk cache: a hit returns exactly the bytes committed under that key
 PROPS["C11"] = dict(
     props_file="Properties/C11.v",
-    harnesses=[dict(cmd="cache", mod="root", model="Model.Cache", quick=180, thorough=12000, shard=24,
+    harnesses=[dict(cmd="cache", mod="root", model="Model.Cache", quick=180, thorough=6000, shard=15, race=40, coq_jobs=12,
                     require=["kind.dir", "kind.mem", "kind.stress", "cfg.sync", "cfg.async", "cfg.direct", "cfg.fadv",
                              "op.add", "op.add.direct", "op.write", "op.write.empty", "op.commit", "op.abort", "op.closew",
                              "op.pwrite", "op.prename", "op.pdone", "op.get", "op.read", "op.closer", "op.peek",
